@@ -310,6 +310,9 @@ mod non_wasm {
             }
         }
 
+        #[cfg(feature = "verif-hooks")]
+        crate::verif::yield_point("schema-cache-miss");
+
         // Need to compile - get write lock
         let mut cache = SCHEMA_CACHE.write().unwrap();
 
